@@ -210,4 +210,15 @@ theorem gen_backends_construct_verified :
     Gen.site_ctor_NewChunkFromStorage_found = true := by
   decide
 
+/-- **regenerated obligation**: every wrapper (cache, repairable cache, router, failover group, de-duplication
+    queues, swap wrapper) returns only chunks that a member's `GetChunk` returned for the requested ID — or, in the
+    de-duplication queues, the result published for that ID's in-flight request: a wrapper never builds, converts
+    or caches a chunk object of its own, so what the backends verified is what the caller gets -/
+theorem gen_wrappers_forward_member_chunks :
+    Gen.provCache = ["member.GetChunk(id)"] ∧ Gen.provRepairableCache = ["member.GetChunk(id)"] ∧
+    Gen.provRouter = ["member.GetChunk(id)"] ∧ Gen.provFailover = ["member.GetChunk(id)"] ∧
+    Gen.provSwap = ["member.GetChunk(id)"] ∧
+    Gen.provDedup = ["member.GetChunk(id)", "wait()"] ∧ Gen.provWriteDedup = ["member.GetChunk(id)", "wait()"] := by
+  decide
+
 end Desync.C03
